@@ -300,10 +300,28 @@ func genG(ch *vs.Choices, b gBias) *gProg {
 		tf := &gTask{Idx: n, Name: fmt.Sprintf("t%d", n), Run: "always", Cmds: []gCmd{{Kind: gProbe, Fail: 1 + ch.Draw(255)}}}
 		used := false
 		for _, t := range p.Tasks {
+			// (also next to dependencies that call or depend on deduplicated tasks themselves)
 			shared := false
 			for _, d := range t.Deps {
-				if effRun(p, p.Tasks[d.Target]) != "always" {
+				dt := p.Tasks[d.Target]
+				if effRun(p, dt) != "always" {
 					shared = true
+				}
+				for _, dd := range dt.Deps {
+					if effRun(p, p.Tasks[dd.Target]) != "always" {
+						shared = true
+					}
+				}
+				callsShared := false
+				for _, dc := range dt.Cmds {
+					if dc.Kind == gCall && !dc.Defer && effRun(p, p.Tasks[dc.Ref.Target]) != "always" {
+						shared, callsShared = true, true
+					}
+				}
+				if callsShared && ch.Bool(1, 2) {
+					// ... and a deferred command registered before that call: it must not run while the call is
+					// still waiting for the shared execution
+					dt.Cmds = append([]gCmd{{Kind: gProbe, Defer: true}}, dt.Cmds...)
 				}
 			}
 			if shared && ch.Bool(1, 2) {
